@@ -288,7 +288,13 @@ fn main() {
     let args: Vec<String> = std::env::args().collect();
     if args.len() >= 4 && args[1] == "garbage" {
         unsafe {
-            let lim = libc::rlimit { rlim_cur: 3 << 29, rlim_max: 3 << 29 };
+            let mapped = std::fs::read_to_string("/proc/self/statm")
+                .ok()
+                .and_then(|s| s.split_whitespace().next().and_then(|p| p.parse::<u64>().ok()))
+                .map(|pages| pages * 4096)
+                .unwrap_or(1 << 30);
+            let lim = mapped + (3u64 << 29);
+            let lim = libc::rlimit { rlim_cur: lim, rlim_max: lim };
             libc::setrlimit(libc::RLIMIT_AS, &lim);
         }
         std::panic::set_hook(Box::new(|_| {}));
